@@ -6,7 +6,7 @@
    coq/Conc/Lang.v (meaning of the lock-structure table; [well_locked]), and the table itself,
    coq/gen/BufferLockGen.v, REGENERATED from psiaudio/buffer.py by translate/pylocks2coq.py on every run. *)
 From Coq Require Import String List.
-From PV Require Import Conc.Sched Conc.Serial Conc.Lang Conc.Tie Conc.Current gen.BufferLockGen.
+From PV Require Import Conc.Sched Conc.Serial Conc.Lang Conc.Tie Conc.Current Conc.Refute gen.BufferLockGen.
 Import ListNotations.
 
 (* For EVERY lock-structure table that passes [well_locked] (every statement part touching a mutable shared
@@ -68,6 +68,21 @@ Print Assumptions C15_store_serial_when_unlocked.
 Theorem C15_current_source : well_locked generated_methods = true.
 Proof. exact current_source_well_locked. Qed.
 Print Assumptions C15_current_source.
+
+(* The discipline is needed, and the semantics does exhibit torn reads: a writer that updates the store twice
+   under no lock ([disc] = false) and a correctly locked reader have a complete schedule whose outcome NO serial
+   execution (in any order) produces. *)
+Theorem C15_discipline_needed :
+  disc Torn.Act Torn.touches MB Torn.W = false /\ disc Torn.Act Torn.touches MB Torn.R = true /\
+  exists ls c,
+    steps Torn.Act Torn.Local Torn.Store Torn.sem Torn.branch Torn.c0 ls c /\
+    final Torn.Act Torn.Local Torn.Store c /\
+    ~ exists ls' thS,
+        ssteps Torn.Act Torn.Local Torn.Store Torn.sem Torn.branch
+               (serial_of Torn.Act Torn.Local Torn.Store Torn.c0) ls' (store c, thS)
+        /\ forall i, thS i = (loc (thr c i), []).
+Proof. exact discipline_needed. Qed.
+Print Assumptions C15_discipline_needed.
 
 (* The hypotheses are satisfiable: a concrete semantics respecting the footprints, and a writer and a reader
    thread of the current source as initial configuration. *)
